@@ -468,6 +468,13 @@ def step (s : DState) (line : String) : DState × String :=
     | some c, some v, some n, some t =>
       plain { s with ms := { s.ms with dict := s.ms.dict.add ⟨c, v, n, t, m == "1"⟩ } } "ok"
     | _, _, _, _ => plain s "bad-op"
+  | ["parname", _, n] =>
+    -- several threads looking the name up at once get what one thread gets: whether the dictionary carries the name
+    match pStr n with
+    | some n => plain s (if (s.ms.dict.getByName n).isSome then "ok" else "err")
+    | none => plain s "bad-op"
+  | ["gdstorm", _] => plain s "ok"                -- another thread busy with the process-wide default dictionary: no effect here
+  | ["iomode", _] => plain s "."                 -- vectored writes / how the reader fills its buffer: invisible to the model
   | ["gdadd", _, _, _, _, _] => plain s "ok"      -- the process-wide default dictionary is another object: no effect here
   | ["dbuiltin"] =>
     -- a new object from the built-in document; the cases that use it query a reserved universe the document does not
@@ -669,6 +676,14 @@ def step (s : DState) (line : String) : DState × String :=
     | some ty, some bs =>
       if bs.length = (fixedSize ty).getD 0 then plain s (fxLine ty bs) else plain s "bad-op"
     | _, _ => plain s "bad-op"
+  | ["psweep", t, lo, n, blk, _threads] =>
+    -- the same blocks, swept by several threads at once on the code's side: the checksums are those of `sweep`
+    match fxTy t, lo.toNat?, n.toNat?, blk.toNat? with
+    | some ty, some lo, some n, some blk =>
+      if blk = 0 then plain s "bad-op" else
+      let sums := (List.range (n / blk)).map fun k => toString (sweepFold ty blk (lo + k * blk) 0).toNat
+      plain s (String.intercalate "," sums)
+    | _, _, _, _ => plain s "bad-op"
   | ["sweep", t, lo, n, blk] =>
     match fxTy t, lo.toNat?, n.toNat?, blk.toNat? with
     | some ty, some lo, some n, some blk =>
